@@ -743,7 +743,7 @@ def assign_group_part_voice(
             voice[(tr, ch)] = vc2
         elif mode == 1:
             pg = part_group_helper.setdefault(tr, len(part_group_helper))
-            prt = part_helper.setdefault(ch, len(part_helper))
+            prt = part_helper.setdefault((tr, ch), len(part_helper))
             part_group.setdefault((tr, ch), pg)
             group_names[pg] = track_names.get(tr, "Track {}".format(tr + 1))
             part_names[prt] = "ch={}".format(ch)
